@@ -111,7 +111,7 @@ func TestCheck(t *testing.T) {
 		t.Fatalf("register: %v", err)
 	}
 
-	n := int64(cfg.Pick(20000, 400000))
+	n := int64(cfg.Pick(20000, 1200000))
 	bbEvery := int64(cfg.Pick(10, 25))
 	rep.Require("outcome/"+clsOK, 1000)
 	rep.Require("bb/"+bbOK, 20)
